@@ -3,6 +3,7 @@ CONSTANTS
   MissingOrder = "signature"
   Reorder = TRUE
   PadFromFront = TRUE
+  DocExtras = {}
 INVARIANT NoDropNoDup
 INVARIANT SigDefaults
 INVARIANT SourceOrder
